@@ -5,6 +5,7 @@ import (
 	"errors"
 	"fmt"
 	"sort"
+	"strings"
 	"sync"
 	"sync/atomic"
 	"time"
@@ -270,6 +271,9 @@ func (c *Client) Node(i int) *puppet.Node {
 
 // Close closes the manager with a bound; false if Close did not return in time.
 func (c *Client) Close(bound time.Duration) bool {
+	if atomic.LoadInt32(&hangsConfirmed) > 0 && bound > 2*time.Second {
+		bound = 2 * time.Second
+	}
 	done := make(chan struct{})
 	go func() {
 		defer func() { _ = recover(); close(done) }()
@@ -351,16 +355,36 @@ func (call *Call) Returned() bool { return atomic.LoadInt32(&call.returned) == 1
 
 // PerNodeTag returns the tag the per-node function gives server s ("" = skip).
 func perNodeTag(spec CallSpec, s int) (uint32, bool) {
-	v, ok := spec.PerNode[s]
-	if !ok {
-		return 0, true
+	tag, _, ok := PerNodeArgs(spec, s)
+	return tag, ok
+}
+
+// PerNodeArgs decodes the per-node table entry of server s: "skip", or a
+// comma separated list of tag:<k> and pay:<n> (a node-specific payload of n bytes).
+// pay < 0 means "the caller's payload".
+func PerNodeArgs(spec CallSpec, s int) (tag uint32, pay int, ok bool) {
+	pay = -1
+	v, present := spec.PerNode[s]
+	if !present {
+		return 0, pay, true
 	}
 	if v == "skip" {
-		return 0, false
+		return 0, pay, false
 	}
-	var k uint32
-	fmt.Sscanf(v, "tag:%d", &k)
-	return k, true
+	for _, part := range strings.Split(v, ",") {
+		var k int
+		if n, _ := fmt.Sscanf(part, "tag:%d", &k); n == 1 {
+			tag = uint32(k)
+		} else if n, _ := fmt.Sscanf(part, "pay:%d", &k); n == 1 {
+			pay = k
+		}
+	}
+	return tag, pay, true
+}
+
+// PerNodePayload is the node-specific payload the per-node function builds.
+func PerNodePayload(token uint64, server, size int) []byte {
+	return PayloadFor(1000+server, token, size)
 }
 
 func (call *Call) perNodeFn() func(*puppet.Req, uint32) *puppet.Req {
@@ -373,6 +397,9 @@ func (call *Call) perNodeFn() func(*puppet.Req, uint32) *puppet.Req {
 		}
 		cp := proto.Clone(r).(*puppet.Req)
 		cp.NodeTag = tag
+		if _, pay, _ := PerNodeArgs(call.Spec, s); pay >= 0 {
+			cp.Payload = PerNodePayload(call.Token, s, pay)
+		}
 		return cp
 	}
 }
